@@ -180,6 +180,20 @@ def r_c01_stdin_paths_position(s4, repo, scratch):
             'cmd': "printf '%s\\n' | %s --color never %s - %s" % (names['b'], s4, names['a'], names['c']), 'expected': ' '.join(want), 'observed': ' '.join(got), 'failed': got != want}
 
 
+def r_c08_compressed_returns_to_earlier_block(s4, repo, scratch):
+    """a gzip'd wtmp that spans several blocks and stores records out of time order prints the same as the plain file"""
+    import gzip
+    src = os.path.join(repo, 'logs/programs/utmp/host-entry6.wtmp')
+    d = open(src, 'rb').read() * 70       # 420 records, 161280 bytes: three 64 KiB blocks, time order returns to block 0
+    plain = os.path.join(scratch, 'c08_big.wtmp'); gz = os.path.join(scratch, 'c08_big.wtmp.gz')
+    open(plain, 'wb').write(d); open(gz, 'wb').write(gzip.compress(d, mtime=0))
+    rc1, want, _ = run_s4(s4, ['--color', 'never', plain])
+    rc2, got, _ = run_s4(s4, ['--color', 'never', gz])
+    return {'name': 'C08.compressed_returns_to_earlier_block', 'input': gz, 'how_made': 'host-entry6.wtmp repeated 70 times (420 records), gzip',
+            'cmd': '%s --color never %s' % (s4, gz), 'expected': 'the %d lines printed for the plain file' % want.count(b'\n'),
+            'observed': 'identical' if got == want else '%d lines (%d bytes)' % (got.count(b'\n'), len(got)), 'failed': got != want}
+
+
 def r_c03_evtx_window(s4, repo, scratch):
     """an event log stored out of order: every record with creation time <= B is printed under --dt-before B"""
     f = os.path.join(repo, 'logs/programs/evtx/Microsoft-Windows-Kernel-PnP%4Configuration.evtx')
@@ -526,7 +540,7 @@ RECIPES = {
     'C06': [r_c01_tie_order, r_c01_chronological, r_c01_submillisecond],
     'C13': [r_c13_field_order_fixedstruct, r_c13_align_widest_printed, r_c13_evtx_prepend_file_only, r_c13_prependdate_lines_in_parts],
     'C03': [r_c03_journal_before_inclusive, r_c03_evtx_window, r_c03_yearless_tie_at_after],
-    'C08': [r_c08_equal_times, r_c08_order, r_c08_smallest_layout_single_record],
+    'C08': [r_c08_equal_times, r_c08_order, r_c08_smallest_layout_single_record, r_c08_compressed_returns_to_earlier_block],
 }
 
 
